@@ -107,19 +107,21 @@ const (
 	FShort   = 2 // short write (with error) / short read (legal, no error)
 	FLateErr = 3 // the call's effect happens, then it reports an error
 	FCtx     = 4 // the call returns its ctx error (ctx-honouring store released after cancellation)
+	FCorrupt = 5 // a read succeeds but one byte of what it returns is flipped (silent corruption in flight)
 	fStall   = 9 // controller-internal: do not release
 )
 
 // FaultPolicy says which gate kinds may fail in this run and how often.
 type FaultPolicy struct {
-	ErrPermille   map[string]int // gate kind -> permille of calls failing (FErr)
-	ShortPermille int            // ds.write / ds.read short transfers
-	LatePermille  int            // ds.wclose late error
-	StallPermille int            // any seam gate: stall
-	StallForever  bool           // stalls never end on their own
-	HonorCtx      bool           // stores return ctx.Err() when released with a cancelled ctx
-	MaxFaults     int            // at most this many injected faults per run (0 = unlimited)
-	Off           bool           // no faults at all (fault tape is not consulted)
+	ErrPermille     map[string]int // gate kind -> permille of calls failing (FErr)
+	CorruptPermille int            // ds.read: permille of reads returning one flipped byte (FCorrupt)
+	ShortPermille   int            // ds.write / ds.read short transfers
+	LatePermille    int            // ds.wclose late error
+	StallPermille   int            // any seam gate: stall
+	StallForever    bool           // stalls never end on their own
+	HonorCtx        bool           // stores return ctx.Err() when released with a cancelled ctx
+	MaxFaults       int            // at most this many injected faults per run (0 = unlimited)
+	Off             bool           // no faults at all (fault tape is not consulted)
 }
 
 // Run is one simulated execution.
@@ -134,19 +136,19 @@ type Run struct {
 	Faults    FaultPolicy
 	FaultsOff bool // set during liveness phases: no new faults
 
-	mu      sync.Mutex
-	events  []event
-	seqs    map[string]int
-	sched   []string // decision log
-	Viol    []Violation
-	FaultCt map[string]int
-	Probes  map[string]int
-	NonTriv map[string]bool
-	Samples []any
+	mu       sync.Mutex
+	events   []event
+	seqs     map[string]int
+	sched    []string // decision log
+	Viol     []Violation
+	FaultCt  map[string]int
+	Probes   map[string]int
+	NonTriv  map[string]bool
+	Samples  []any
 	MetaInjs []*InjErr
-	Budget  bool // step or time budget hit (inconclusive run, never a violation)
-	Fatal   bool // a goroutine of the system under test panicked
-	Dirty   bool
+	Budget   bool // step or time budget hit (inconclusive run, never a violation)
+	Fatal    bool // a goroutine of the system under test panicked
+	Dirty    bool
 
 	// Scheduling policy (drawn from the schedule tape).
 	chooser     int
@@ -155,18 +157,18 @@ type Run struct {
 	prio        map[string]int
 	changePts   map[int]bool
 	starve      string
-	clockProb   int // permille chance of a clock advance at a step with enabled actions
+	clockProb   int  // permille chance of a clock advance at a step with enabled actions
 	FairNoClock bool // C10 mode: never advance the clock while anything is enabled
 	nFaults     int
 
 	// Hooks.
-	OnStep  func()                        // invariants, channel polling — runs while everything is quiescent
-	OnIdle  func(now time.Time)           // nothing is enabled: every runnable actor has run
-	OnPick  func()                        // before each scheduling choice (controller-side events)
-	Prefer  func(en []*simrt.Parked) *simrt.Parked // optional bias: return the gate to release next, or nil
-	LastKind string                       // kind of the gate released in the previous step
-	OnClock func(before, after time.Time) // called around clock advances
-	Keep    bool                          // keep trace
+	OnStep   func()                                 // invariants, channel polling — runs while everything is quiescent
+	OnIdle   func(now time.Time)                    // nothing is enabled: every runnable actor has run
+	OnPick   func()                                 // before each scheduling choice (controller-side events)
+	Prefer   func(en []*simrt.Parked) *simrt.Parked // optional bias: return the gate to release next, or nil
+	LastKind string                                 // kind of the gate released in the previous step
+	OnClock  func(before, after time.Time)          // called around clock advances
+	Keep     bool                                   // keep trace
 
 	// Fault enumeration (C06/C13/C15): one fault at the EnumPos-th seam call made while
 	// EnumActive is set by the scenario.
@@ -463,6 +465,10 @@ func (r *Run) decideFault(p *simrt.Parked) simrt.Decision {
 	if (p.Kind == "ds.write" || p.Kind == "ds.read" || p.Kind == "os.write") && band(r.Faults.ShortPermille) {
 		r.countFault("short:" + p.Kind)
 		return simrt.Decision{Fault: FShort, Arg: int64(y)}
+	}
+	if p.Kind == "ds.read" && band(r.Faults.CorruptPermille) {
+		r.countFault("corrupt:" + p.Kind)
+		return simrt.Decision{Fault: FCorrupt, Arg: int64(y)}
 	}
 	if (p.Kind == "ds.wclose" || p.Kind == "os.rename" || p.Kind == "os.fsyncdir") && band(r.Faults.LatePermille) {
 		r.countFault("late-err:" + p.Kind)
